@@ -68,8 +68,10 @@ def lattice(tier, seed):
     # variants that take other paths to the tag list: --ignore-vcs-tag + --set-version, tag_scope = branch
     for kind in kinds:
         for cfg, cli0, remote, dry, fetch, variant in itertools.product(
-            cfgs, (None, True, False), ("upstream", None), (False, True), (True, False), ("ignore+set-version", "scope-branch", "ignore", "hooks-via-cli", "hooks-via-cli-failing")
+            cfgs, (None, True, False), ("upstream", None), (False, True), (True, False), ("ignore+set-version", "scope-branch", "ignore", "hooks-via-cli", "hooks-via-cli-failing", "gitfile")
         ):
+            if variant == "gitfile" and kind != "git":
+                continue
             yield dict(kind=kind, cfg=cfg, cli=(cli0, None, None), hooks=("fails", "ok") if variant == "hooks-via-cli-failing" else ("ok", "ok"),
                        tree="clean", allow_dirty=False, tagmsg="set", remote=remote, dry=dry, fetch=fetch, variant=variant)
     if tier != "thorough":
@@ -167,7 +169,7 @@ def execute(p, fail=None):
     files = build(p)
     world.clear_dir(".")
     world.write_tree(files)
-    os.mkdir("." + p["kind"])
+    world.mark_repo(p["kind"], as_file=p["variant"] == "gitfile")  # gitfile: `.git` is a file (linked work tree, separate git dir)
     hooks = {}
     for name, mode in zip(("pre.sh", "post.sh"), p["hooks"]):
         if mode != "absent":
